@@ -1002,6 +1002,81 @@ pub fn interrupt_variant(base: &Scenario, k: u64, id: u64, engine: bool) -> Scen
     s
 }
 
+/// `clauses`: 2-4 variables and a handful of clauses over all four predicate kinds (also over
+/// scaled / offset views), all solutions iterated: stresses the nogood propagator's watchers and the
+/// translation of view predicates (C01, C02, C03).
+pub fn fam_clauses(seed: u64, tier: &str, index: u64) -> Scenario {
+    let mut g = Gen::new(rng_for(seed, "clauses", index), params(tier));
+    g.p.max_space = 700;
+    let nv = g.rng.gen_range(2..=4);
+    for _ in 0..nv {
+        let _ = g.add_int_var();
+    }
+    if g.rng.gen_bool(0.5) {
+        let _ = g.add_lit();
+    }
+    let nc = g.rng.gen_range(2..=7);
+    for _ in 0..nc {
+        let n = g.rng.gen_range(1..=3);
+        let mut ps = vec![];
+        for _ in 0..n {
+            let all: Vec<u32> = g.vars.iter().map(|v| v.v).collect();
+            let v = *all.choose(&mut g.rng).unwrap();
+            let x = if g.info(v).lit || g.rng.gen_bool(0.5) { View::var(v) } else { g.view_of(v) };
+            let mut p = g.pred_on(x);
+            // disequalities and equalities are the interesting watchers
+            if g.rng.gen_bool(0.4) {
+                p.op = if g.rng.gen_bool(0.5) { Op::Ne } else { Op::Eq };
+            }
+            ps.push(p);
+        }
+        g.post(Cons::Clause { ps }, false);
+    }
+    if g.rng.gen_bool(0.3) {
+        let c = g.random_cons();
+        g.post(c, false);
+    }
+    let br = g.random_brancher();
+    g.steps.push(Step::Iterate { br, max: 100000, stop_at: None });
+    let mut opts = g.random_opts();
+    if opts.restart_base <= 3 && opts.high_lbd_limit <= 4 {
+        opts.high_lbd_limit = 4000;
+    }
+    Scenario { fam: "clauses".into(), id: index, opts, steps: g.steps, engine: index % 2 == 0 }
+}
+
+pub const EXH_CLAUSE_TOTAL: u64 = 14 * 16 * 16 * 2;
+
+/// `exh_clause`: exhaustive small scope. Two variables, one binary clause over every pair of
+/// predicates (4 operators x 4 constants each), every value selector with input-order variable
+/// selection, two domain shapes; all solutions iterated. `index` enumerates the space.
+pub fn fam_exh_clause(_seed: u64, tier: &str, index: u64) -> Scenario {
+    let index = index % EXH_CLAUSE_TOTAL;
+    let valsel = (index % 14) as u8;
+    let p1 = (index / 14) % 16;
+    let p2 = (index / 224) % 16;
+    let shape = (index / 3584) % 2;
+    let mut g = Gen::new(rng_for(0, "exh_clause", index), params(tier));
+    let (d1, d2) = if shape == 0 {
+        (vec![0, 1, 2, 3], vec![0, 1, 2, 3])
+    } else {
+        (vec![0, 2, 3], vec![-1, 0, 1, 3])
+    };
+    let x = g.add_int_var_with(d1, shape == 1);
+    let y = g.add_int_var_with(d2, shape == 1);
+    let ops = [Op::Ge, Op::Le, Op::Ne, Op::Eq];
+    let mk = |v: u32, code: u64| Pred {
+        x: View::var(v),
+        op: ops[(code % 4) as usize],
+        k: (code / 4) as i32,
+    };
+    g.post(Cons::Clause { ps: vec![mk(x, p1), mk(y, p2)] }, false);
+    let br = BrSpec { kind: "indep".into(), var: 2, val: valsel };
+    g.steps.push(Step::Iterate { br, max: 100000, stop_at: None });
+    let opts = Opts { restart: "off".into(), ..Opts::default() };
+    Scenario { fam: "exh_clause".into(), id: index, opts, steps: g.steps, engine: index % 7 == 0 }
+}
+
 pub fn generate(fam: &str, seed: u64, tier: &str, index: u64) -> Scenario {
     match fam {
         "solve" => fam_solve(seed, tier, index),
@@ -1012,6 +1087,8 @@ pub fn generate(fam: &str, seed: u64, tier: &str, index: u64) -> Scenario {
         "cumulative" => fam_cumulative(seed, tier, index),
         "reif" => fam_reif(seed, tier, index),
         "configs" => fam_configs(seed, tier, index),
+        "clauses" => fam_clauses(seed, tier, index),
+        "exh_clause" => fam_exh_clause(seed, tier, index),
         "interrupt_base" => fam_interrupt_base(seed, tier, index),
         other => panic!("harness: unknown family {other}"),
     }
